@@ -139,12 +139,10 @@ def signStage (mac : Str → List UInt8 → Str) (env : Env) (r : Req) (hm : Hea
   match env.key with
   | none => mkForward r hm none
   | some (guid, key) =>
-    match sigInput r.method r.body hm r.uri with
-    | none => .panic
-    | some si =>
-      if isHexKey key then
-        mkForward r (insert authHeader (authScheme ++ [' '] ++ guid ++ [' '] ++ mac key si) hm) (some (guid, si))
-      else mkForward r hm none
+    let si := sigInput r.method r.body hm r.uri
+    if isHexKey key then
+      mkForward r (insert authHeader (authScheme ++ [' '] ++ guid ++ [' '] ++ mac key si) hm) (some (guid, si))
+    else mkForward r hm none
 
 def teHeader : Str := "transfer-encoding".toList
 
